@@ -77,6 +77,26 @@ def run(ck, rng, n=24):
     bad = cg.parse_nat_list(out) if ok else None
     ck.obligation('Model/Launch.v (launch, threads, cdiv) = kyupy.MockCuda launcher and kyupy.cdiv on generated grid / block shapes',
                   ok and bad == [], 'correspondence', '' if ok and bad == [] else (out[-600:] if not ok else f'cases {bad[:10]} differ: {descs[bad[0]]}'))
+    # the same thread sequences on the TRANSLATED source (Gen/LaunchSrc.v, written by translate/gen_launch.py from the current
+    # __init__.py); a stale pair of coordinates is passed in to exercise the independence of the earlier state
+    from vcheck import gen_all
+    res = gen_all.generate(['LaunchSrc'])
+    ck.obligation('translate kyupy.MockCuda launcher -> Gen/LaunchSrc.v', res['LaunchSrc'] is None, 'translation', res['LaunchSrc'] or '')
+    ck.trust('translator translate/gen_launch.py (fail-closed: the decorator plumbing of MockCuda.jit / grid / __init__ must be the expected syntax '
+             'trees; the loop nest of Launcher.__getitem__.inner is translated into actions on the coordinates, vocabulary Model/LaunchSrcLib.v); '
+             'its output is additionally compared with the thread sequence of the real launcher')
+    if res['LaunchSrc'] is None:
+        text_s = text.replace('From KV Require Import Model.Launch.', 'From KV Require Import Model.Launch Model.LaunchSrcLib Gen.LaunchSrc.')
+        text_s = text_s.replace('list_eqb (launch ', 'list_eqb (launch_s ').replace('list_eqb (threads ', 'list_eqb (threads_s ')
+        text_s = text_s.replace('Definition cases : list bool', (
+            'Definition launch_s gx gy bx by_ := fst (launch_src gx gy bx by_ (7, 9)).\n'
+            'Definition threads_s X Y bx by_ := filter (fun p => Nat.ltb (fst p) X && Nat.ltb (snd p) Y) (launch_s (cdiv X bx) (cdiv Y by_) bx by_).\n'
+            'Definition cases : list bool'), 1)
+        ok_s, out_s = ck.coq_eval('launchsrc', text_s)
+        bad_s = cg.parse_nat_list(out_s) if ok_s else None
+        ck.obligation('translated source Gen/LaunchSrc.v = kyupy.MockCuda launcher on the same grid / block shapes',
+                      ok_s and bad_s == [], 'correspondence',
+                      '' if ok_s and bad_s == [] else (out_s[-600:] if not ok_s else f'cases {bad_s[:10]} differ: {descs[bad_s[0]]}'))
     if ok and bad:
         for i in bad[:3]:
             fails.append(('launch:model', f'the mock GPU launcher does not enumerate kernel instances as modelled (and proved complete) for {descs[i]}',
